@@ -146,6 +146,18 @@ func (s *c10Server) serve(c *memnet.Conn) {
 			}
 		}
 		switch action {
+		case "reply-huge":
+			// a legal response of about 5 MB (a non-critical message extension carrying a large vendor blob)
+			inOrder(func() {
+				resp, _ := ttlvref.Parse(echoResponse(req), ttlvref.Strict)
+				item := resp.Kids[len(resp.Kids)-1]
+				item.Kids = append(item.Kids, &ttlvref.Node{Tag: 0x420051, Type: ttlvref.Structure, Kids: []*ttlvref.Node{
+					{Tag: 0x42009D, Type: ttlvref.TextString, B: []byte("verif")},
+					{Tag: 0x420026, Type: ttlvref.Boolean, I: 0},
+					{Tag: 0x42009C, Type: ttlvref.Structure, Kids: []*ttlvref.Node{{Tag: 0x540001, Type: ttlvref.ByteString, B: make([]byte, 5<<20)}}}}})
+				_, _ = c.Write(ttlvref.Write(resp))
+				closeOnce(rep)
+			})
 		case "reply":
 			inOrder(func() {
 				_, _ = c.Write(echoResponse(req))
@@ -493,7 +505,7 @@ func c10Run(c c10Case) (sig string, err error) {
 func TestC10OwnResponse(t *testing.T) {
 	const name = "TestC10OwnResponse"
 	rec := evid.New("C10", name, "1..4 caller goroutines sharing one client, each issuing 1..4 calls with unique identifiers (Activate through Request, or Query / Discover Versions through Roundtrip); per call a cancellation plan (none, context already cancelled, cancelled while the request is half written, cancelled at the moment its last byte is written, cancelled between send and receive once the server has read the request, "+
-		"cancelled once the server has written the reply, cancelled explicitly a few milliseconds into the wait for the answer, 15 ms deadline) and a server plan (reply at once, reply late - after the call was abandoned, or only after one or two further calls of that caller, answers leaving each connection in request order -, never reply, close the connection, close the connection after reading the request and answer the retransmission late, send a server-originated request before or after the reply); the client optionally carries the correlation value middleware (a new value per request, one value shared by all requests, or every other request only), the server sending the values back as a 1.4 server does; the send/recv window is owned by the generator through the yield-point hook; real time, event driven; "+
+		"cancelled once the server has written the reply, cancelled explicitly a few milliseconds into the wait for the answer, 15 ms deadline) and a server plan (reply at once, reply late - after the call was abandoned, or only after one or two further calls of that caller, answers leaving each connection in request order -, never reply, close the connection, close the connection after reading the request and answer the retransmission late, send a server-originated request before or after the reply, answer with a legal response of 5 MB followed by five ordinary calls); the client optionally carries the correlation value middleware (a new value per request, one value shared by all requests, or every other request only), the server sending the values back as a 1.4 server does; the send/recv window is owned by the generator through the yield-point hook; real time, event driven; "+
 		"oracle: every call returns within 30 s with an error or the response echoing its own identifier, undisturbed calls succeed; non-trivial = a call cancelled mid-exchange is followed by a later call, or >= 2 callers; distinct by case").Attach(t)
 	if rp := evid.LoadReplay(name); rp != nil {
 		var c c10Case
@@ -546,6 +558,13 @@ func TestC10OwnResponse(t *testing.T) {
 				calls = append(calls, p)
 			}
 			c.Callers = append(c.Callers, calls)
+		}
+		if rapid.IntRange(0, 7).Draw(rt, "hugereply") == 0 {
+			// the first caller's first call is answered with a very large (legal) response; five undisturbed calls follow it
+			c.Callers[0][0].Server, c.Callers[0][0].Cancel, c.Callers[0][0].Op = "reply-huge", "none", ""
+			for i := 0; i < 5; i++ {
+				c.Callers[0] = append(c.Callers[0], callPlan{ID: fmt.Sprintf("call-0-%d", len(c.Callers[0])), Cancel: "none", Server: "reply"})
+			}
 		}
 		c.Correlation = rapid.SampledFrom([]string{"", "", "unique", "shared", "alternate"}).Draw(rt, "correlation")
 		key, _ := json.Marshal(c)
